@@ -23,6 +23,7 @@ import (
 	"testing"
 
 	"github.com/google/martian/v3"
+	"github.com/google/martian/v3/api"
 	mlog "github.com/google/martian/v3/log"
 	"github.com/google/martian/v3/messageview"
 	"pgregory.net/rapid"
@@ -54,10 +55,15 @@ type Case struct {
 	// SkipBetween (responses): the exchange is marked skip-logging after the
 	// loggers handled its request and before they see the response (a request
 	// modifier behind the logger, or a response modifier in front of it)
-	SkipBetween bool  `json:"skip_between,omitempty"`
-	Unknown     bool  `json:"unknown,omitempty"` // request only: an upstream modifier made the length unknown (-1)
-	Proxy       bool  `json:"proxy,omitempty"`   // forward with WriteProxy instead of Write
-	Order       []int `json:"order,omitempty"`   // stack: permutation of 0=har 1=marbl 2=text
+	SkipBetween bool `json:"skip_between,omitempty"`
+	// Marks: what is done to the context at the point where the exchange is
+	// marked, in this order: skip-logging | api-forwarder (the real
+	// api.Forwarder: marks API request + skip-logging) | skip-round-trip |
+	// api-request. Empty = skip-logging alone.
+	Marks   []string `json:"marks,omitempty"`
+	Unknown bool     `json:"unknown,omitempty"` // request only: an upstream modifier made the length unknown (-1)
+	Proxy   bool     `json:"proxy,omitempty"`   // forward with WriteProxy instead of Write
+	Order   []int    `json:"order,omitempty"`   // stack: permutation of 0=har 1=marbl 2=text
 }
 
 // ---------------------------------------------------------------- plumbing
@@ -266,11 +272,31 @@ func multiset(h http.Header) []string {
 }
 
 // sameOnWire compares two serialisations up to chunk boundaries.
-func sameOnWire(want, got []byte, bodyless bool) (bool, string) {
+//
+// noTrailers: the trailer fields of the message are not announced by a
+// 'Trailer:' header. net/http's writer then forwards them only if the body
+// happened to be read to EOF before the write started (it copies
+// Request.Trailer when the write begins), so whether they are forwarded is
+// net/http's business, not the logger's: the 'Trailer:' line and the trailer
+// section are left out of the comparison.
+func sameOnWire(want, got []byte, bodyless, noTrailers bool) (bool, string) {
 	if bytes.Equal(want, got) {
 		return true, ""
 	}
 	w, g := split(want, bodyless), split(got, bodyless)
+	if noTrailers && w.err == nil && g.err == nil {
+		strip := func(o *outMsg) {
+			var keep []string
+			for _, l := range strings.Split(string(o.head), "\r\n") {
+				if !strings.HasPrefix(l, "Trailer: ") {
+					keep = append(keep, l)
+				}
+			}
+			o.head, o.trailer = []byte(strings.Join(keep, "\r\n")), nil
+		}
+		strip(&w)
+		strip(&g)
+	}
 	switch {
 	case w.err != nil:
 		return false, "control-output-malformed"
@@ -345,7 +371,7 @@ func run(c Case) (v kit.Verdict) {
 	}
 	defer sub.remove()
 	if c.Skip {
-		sub.ctx.SkipLogging()
+		mark(c, ctl, sub)
 	}
 
 	// One instance of each logger. For a response the loggers first handle the
@@ -364,7 +390,7 @@ func run(c Case) (v kit.Verdict) {
 	}
 	var textBase int64
 	if c.SkipBetween && sub.res != nil {
-		sub.ctx.SkipLogging()
+		mark(c, ctl, sub)
 		textBase = ls.count("text")
 	}
 	for _, name := range names {
@@ -410,7 +436,7 @@ func run(c Case) (v kit.Verdict) {
 		v.Addf("C15/harness/control-not-writable", "the unlogged twin cannot be serialised: %v", werr)
 	} else if gerr != nil {
 		v.Addf("C15/forward/"+c.Logger+"/"+shape+"/write-error", "after logging, serialising the message fails: %v (the unlogged twin is written without error)", gerr)
-	} else if same, class := sameOnWire(want, got, bodyless); !same {
+	} else if same, class := sameOnWire(want, got, bodyless, m.Spec.TrailersUnannounced); !same {
 		// a stack is the three loggers in a row: attribute the difference to
 		// the single logger(s) that produce it alone; only a difference that
 		// none of them produces alone is reported against the stack itself
@@ -435,7 +461,7 @@ func run(c Case) (v kit.Verdict) {
 	}
 	// the control itself must carry what was generated (guards the harness and
 	// the differential oracle against a loss common to both twins)
-	if werr == nil && !bodyless {
+	if werr == nil && !bodyless && !m.Spec.TrailersUnannounced {
 		o := split(want, bodyless)
 		var tr []string
 		if len(o.trailer) > 2 {
@@ -449,6 +475,30 @@ func run(c Case) (v kit.Verdict) {
 
 	v = append(v, skipped()...)
 	return v
+}
+
+// mark marks the exchange skip-logging, together with the other context
+// marks of the case in their drawn order: no other mark may undo it. The
+// forwarder also rewrites the request URL, so the unlogged twin passes it too.
+func mark(c Case, ctl, sub *twin) {
+	marks := c.Marks
+	if len(marks) == 0 {
+		marks = []string{"skip-logging"}
+	}
+	for _, mk := range marks {
+		switch mk {
+		case "skip-logging":
+			sub.ctx.SkipLogging()
+		case "skip-round-trip":
+			sub.ctx.SkipRoundTrip()
+		case "api-request":
+			sub.ctx.APIRequest()
+		case "api-forwarder":
+			f := api.NewForwarder("localhost", 8181)
+			f.ModifyRequest(ctl.req)
+			f.ModifyRequest(sub.req)
+		}
+	}
 }
 
 // probed lists the methods for which net/http decides the framing of a
@@ -470,7 +520,11 @@ func probed(method string) bool {
 func skipCheck(c Case, ls *logset, names []string, sub *twin, textBase int64) (v kit.Verdict) {
 	for _, name := range names {
 		if c.Skip && ls.count(name) > 0 {
-			v.Addf("C15/skip-logging/"+name+"/recorded", "the exchange is marked skip-logging, yet the %s logger recorded it", name)
+			if len(c.Marks) > 1 {
+				v.Addf("C15/skip-logging/"+name+"/recorded-after-another-context-mark", "the context was marked %v, yet the %s logger recorded the exchange (skipping=%v)", c.Marks, name, sub.ctx.SkippingLogging())
+			} else {
+				v.Addf("C15/skip-logging/"+name+"/recorded", "the exchange is marked skip-logging, yet the %s logger recorded it", name)
+			}
 		}
 		if !c.SkipBetween || c.Skip || sub.res == nil {
 			continue
@@ -621,6 +675,20 @@ func verifySnapshot(c Case, m *msggen.Message, sub *twin, mv *messageview.Messag
 	if !captured {
 		return v
 	}
+	// the trailer block itself, whether or not the whole snapshot re-parses
+	// (announced or not: a message read to EOF knows its trailers)
+	if tb, err := io.ReadAll(mv.TrailerReader()); err == nil {
+		var got []string
+		for _, l := range strings.Split(string(tb), "\r\n") {
+			if l != "" {
+				got = append(got, l)
+			}
+		}
+		sort.Strings(got)
+		if want := descHeaders(m.Trailers); strings.Join(got, "\n") != strings.Join(want, "\n") {
+			v.Addf("C15/snapshot/"+shape+"/trailer-section-differs", "the snapshot's trailer section holds %q, the message carries %q", got, want)
+		}
+	}
 	data, err := io.ReadAll(body)
 	if err != nil {
 		v.Addf("C15/snapshot/"+shape+"/not-reparseable", "reading the body of the re-parsed snapshot fails: %v (tail of the snapshot: %q)", err, raw[max(0, len(raw)-60):])
@@ -650,7 +718,7 @@ func maxBody() int {
 
 func gen(t *rapid.T) Case {
 	c := Case{Logger: rapid.SampledFrom([]string{"har", "marbl", "text", "snapshot", "stack"}).Draw(t, "logger")}
-	o := msggen.Options{MaxBody: maxBody(), Corrupt: true}
+	o := msggen.Options{MaxBody: maxBody(), Corrupt: true, Unannounced: true}
 	if rapid.Bool().Draw(t, "response") {
 		c.Msg = msggen.DrawResponse(t, o, rapid.SampledFrom([]string{"GET", "GET", "POST", "HEAD"}).Draw(t, "req_method"))
 	} else {
@@ -671,6 +739,16 @@ func gen(t *rapid.T) Case {
 		c.Skip = rapid.IntRange(0, 3).Draw(t, "skip") == 0
 		if !c.Skip && c.Msg.Response {
 			c.SkipBetween = rapid.IntRange(0, 3).Draw(t, "skip_between") == 0
+		}
+		if (c.Skip || c.SkipBetween) && rapid.Bool().Draw(t, "other_marks") {
+			// other context marks before and after the skip-logging mark
+			pool := []string{rapid.SampledFrom([]string{"skip-logging", "api-forwarder"}).Draw(t, "skip_mark")}
+			for _, o := range []string{"skip-round-trip", "api-request"} {
+				if rapid.Bool().Draw(t, "mark_"+o) {
+					pool = append(pool, o)
+				}
+			}
+			c.Marks = rapid.Permutation(pool).Draw(t, "marks")
 		}
 	}
 	if c.Logger == "stack" {
@@ -719,6 +797,15 @@ func classes(c Case) []string {
 	if c.SkipBetween {
 		cl = append(cl, "skip-logging-between-request-and-response")
 	}
+	if len(c.Marks) > 1 {
+		cl = append(cl, "other-context-marks")
+		if c.Marks[len(c.Marks)-1] != "skip-logging" && c.Marks[len(c.Marks)-1] != "api-forwarder" {
+			cl = append(cl, "mark-after-skip-logging")
+		}
+	}
+	if s.TrailersUnannounced {
+		cl = append(cl, "unannounced-trailers")
+	}
 	if c.Unknown {
 		cl = append(cl, "unknown-length")
 	}
@@ -759,12 +846,12 @@ var propForward = &kit.Prop[Case]{
 	Gates: map[string]float64{
 		"nontrivial": 0.5, "framing-chunked": 0.15, "trailers": 0.04, "encoded": 0.2, "skip-logging": 0.1,
 		"logger-har": 0.1, "logger-marbl": 0.1, "logger-text": 0.1, "logger-snapshot": 0.1, "logger-stack": 0.1,
-		"request": 0.3, "response": 0.3, "body>=4097": 0.15, "bodyless-post": 0.01, "skip-logging-between-request-and-response": 0.05,
+		"request": 0.3, "response": 0.3, "body>=4097": 0.15, "bodyless-post": 0.01, "skip-logging-between-request-and-response": 0.05, "mark-after-skip-logging": 0.03, "unannounced-trailers": 0.01,
 	},
 }
 
 var propMatrix = &kit.Prop[Case]{
-	ID: "C15", Name: "matrix", Rule: "ALL combinations of logger x {request, response} x framing (none, Content-Length, chunked, chunked+trailers, close, answer to HEAD, 204) x body size {0, 1, 4097} x {identity, gzip} x skip-logging {off, before the exchange, between request and response phase (responses)} x method {GET, POST}: " + rule,
+	ID: "C15", Name: "matrix", Rule: "ALL combinations of logger x {request, response} x framing (none, Content-Length, chunked, chunked+trailers, close, answer to HEAD, 204) x body size {0, 1, 4097} x {identity, gzip} x skip-logging {off, before the exchange, between request and response phase (responses)} x method {GET, POST}; plus the skip-logging mark among other context marks (SkipRoundTrip, APIRequest, the real api.Forwarder) in 5 orders x 4 loggers x {request, response, response marked between the phases}, and unannounced trailers x 5 loggers x {request, response}: " + rule,
 	Run: run, NonTrivial: nontrivial, Classes: classes,
 }
 
@@ -834,11 +921,55 @@ func matrix(yield func(Case) bool) {
 	}
 }
 
+// matrixExtra: the skip-logging mark among other context marks, and trailers
+// that no 'Trailer:' header announces.
+func matrixExtra(yield func(Case) bool) {
+	body := msggen.Body{Kind: "text", Size: 9, Seed: 7}
+	reqSpec := msggen.Spec{Method: "POST", Host: "example.com", Path: "/a", Framing: "cl", Body: body, ContentType: "text/plain"}
+	resSpec := msggen.Spec{Response: true, Status: 200, ReqMethod: "GET", Framing: "cl", Body: body, ContentType: "text/plain"}
+	all := HarOpt{Mode: "all"}
+	for _, logger := range []string{"har", "marbl", "text", "stack"} {
+		for _, marks := range [][]string{{"skip-logging", "skip-round-trip"}, {"api-forwarder", "skip-round-trip"}, {"skip-round-trip", "skip-logging"},
+			{"skip-logging", "api-request", "skip-round-trip"}, {"api-request", "skip-round-trip", "api-forwarder"}} {
+			base := Case{Logger: logger, Post: all, Body: all, Decode: true, Order: []int{2, 0, 1}, Marks: marks}
+			for k := 0; k < 3; k++ {
+				c := base
+				switch k {
+				case 0:
+					c.Msg, c.Skip = reqSpec, true
+				case 1:
+					c.Msg, c.Skip = resSpec, true
+				case 2:
+					c.Msg, c.SkipBetween = resSpec, true
+				}
+				if !yield(c) {
+					return
+				}
+			}
+		}
+	}
+	tr := []msggen.HV{{Name: "X-Checksum", Value: "deadbeef"}, {Name: "Server-Timing", Value: "db;dur=53"}}
+	for _, logger := range []string{"har", "marbl", "text", "snapshot", "stack"} {
+		for _, spec := range []msggen.Spec{reqSpec, resSpec} {
+			spec.Framing, spec.Chunks, spec.Trailers, spec.TrailersUnannounced = "chunked", []int{4}, tr, true
+			if !yield(Case{Logger: logger, Post: all, Body: all, Decode: true, Order: []int{0, 1, 2}, Msg: spec}) {
+				return
+			}
+		}
+	}
+}
+
 func TestMatrix(t *testing.T) {
 	if kit.Race() {
 		t.Skip("sequential, single goroutine per case")
 	}
-	propMatrix.Enumerate(t, matrix)
+	propMatrix.Enumerate(t, func(yield func(Case) bool) {
+		stopped := false
+		matrix(func(c Case) bool { stopped = !yield(c); return !stopped })
+		if !stopped {
+			matrixExtra(yield)
+		}
+	})
 }
 
 func TestForward(t *testing.T) {
